@@ -78,6 +78,9 @@ def make_builtins(eng):
                 return v.kind == (2 if n == "numpy.ndarray" else 1)
             return z3.BoolVal(False)
         if n in ("tuple",): return z3.BoolVal(isinstance(v, VTuple))
+        if n in ("dict",) and isinstance(v, HObj): return z3.BoolVal(v.cls == "builtins.dict")
+        if n in ("slice", "set", "frozenset", "bytes") and isinstance(v, (VInt, VBool, VReal, VStr, VNone, VSeq, VTuple, VVal)):
+            return z3.BoolVal(False)
         if isinstance(v, HObj):
             return z3.BoolVal(eng.is_subclass(v.cls, n))
         if isinstance(v, VOpt) and isinstance(v.inner, (VAbs, VRef)):
@@ -114,6 +117,10 @@ def make_builtins(eng):
     @reg("float")
     def _float(args, kwargs, st, eng):
         v = eng.deref(args[0], st)
+        if isinstance(v, VStr) and v.s in ("inf", "-inf", "nan"):
+            # not a real number: an unconstrained constant (comparisons with it go both ways)
+            eng.used_trusted.add(f"assumption:float('{v.s}') is an unconstrained real constant")
+            return VReal(z3.Real(f"float!{v.s}"))
         if isinstance(v, VOpt): v = eng.unopt(v, st, None, "float() argument")
         return VReal(_e.to_real(v))
 
@@ -291,6 +298,10 @@ def make_builtins(eng):
     def _sorted(args, kwargs, st, eng):
         raise Unsupported("sorted")
 
+    for n in ("slice", "dict", "set", "frozenset", "bytes", "type", "object", "AssertionError", "KeyError", "IndexError",
+              "TypeError", "AttributeError", "StopIteration"):
+        if n not in B:
+            B[n] = VClass(n)
     B["ValueError"] = VClass("ValueError")
     B["NotImplementedError"] = VClass("NotImplementedError")
     B["RuntimeError"] = VClass("RuntimeError")
@@ -357,6 +368,8 @@ def make_spec_builtins(eng):
     @reg("val")
     def _val(args, kwargs, st, eng):
         v = args[0]
+        if isinstance(v, VNone):
+            return fresh(INT, "val_of_none")      # only meaningful under a guard that excludes None
         return v.inner if isinstance(v, VOpt) else v
 
     def _proj(k):
@@ -473,3 +486,6 @@ def _partial(args, kwargs, st, eng):
     def fn(a, k, s, e):
         return e.call(f, bound + list(a), dict(bkw, **k), s, None)
     return VFunc("partial", fn)
+
+
+LIB["logging.getLogger"] = lambda a, k, s, e: fresh(VAL, "logger")
